@@ -46,4 +46,16 @@ def stepFitErr (values : List Rat) (p : Nat) (k : Nat) : Rat :=
 def lerpRow (s : Rat) (r0 r1 : List Rat) : List Rat :=
   List.zipWith (fun a b => (1 - s) * a + s * b) r0 r1
 
+/-- `R` is the table `f` over the nodes `xf`, interpolated linearly column by column at `x`, clamped to the first /
+last row outside the node range. (`f` has at least as many rows as there are nodes.) -/
+def IsClampedLerp (xf : List Rat) (f : List (List Rat)) (hf : xf.length ≤ f.length) (x : Rat) (R : List Rat) : Prop :=
+  (∃ h0 : 0 < xf.length, x ≤ xf[0] ∧ R = f[0]'(by omega)) ∨
+  (∃ h0 : 0 < xf.length, xf[xf.length - 1]'(by omega) ≤ x ∧ R = f[xf.length - 1]'(by omega)) ∨
+  (∃ i, ∃ hi : i + 1 < xf.length, xf[i]'(by omega) ≤ x ∧ x ≤ xf[i+1] ∧
+      R = lerpRow ((x - xf[i]'(by omega)) / (xf[i+1] - xf[i]'(by omega))) (f[i]'(by omega)) (f[i+1]'(by omega)))
+
+/-- strictly increasing nodes with gaps larger than the `1e-10` guard of `interp2d` -/
+def GapNodes (xf : List Rat) : Prop :=
+  ∀ i (h : i + 1 < xf.length), xf[i] + EqsigVerif.Model.Fns.tol < xf[i+1]
+
 end EqsigVerif.Spec.Fns
